@@ -96,6 +96,32 @@ fn run_one(c: &Value) -> String {
         "2q_with_recent_ratio" => ce(TwoQueueCache::<u64, u64>::with_recent_ratio(n, f(s(c, "rr")))),
         "2q_with_ghost_ratio" => ce(TwoQueueCache::<u64, u64>::with_ghost_ratio(n, f(s(c, "gr")))),
         "2q_builder" => ce(TwoQueueCacheBuilder::new(n).set_recent_ratio(f(s(c, "rr"))).set_ghost_ratio(f(s(c, "gr"))).finalize::<u64, u64>()),
+        "2q_builder_perm" => {
+            // the three setters applied in the order given by `perm`, each preceded by a decoy value that must not stick
+            let (rr, gr) = (f(s(c, "rr")), f(s(c, "gr")));
+            let order: [usize; 3] = [[0, 1, 2], [0, 2, 1], [1, 0, 2], [1, 2, 0], [2, 0, 1], [2, 1, 0]][u(c, "perm") as usize];
+            let mut b = TwoQueueCacheBuilder::new(5).set_recent_ratio(0.75).set_ghost_ratio(0.75);
+            for step in order {
+                b = match step {
+                    0 => b.set_size(77).set_size(n),
+                    1 => b.set_recent_ratio(0.5).set_recent_ratio(rr),
+                    _ => b.set_ghost_ratio(0.25).set_ghost_ratio(gr),
+                };
+            }
+            ce(b.finalize::<u64, u64>())
+        }
+        "w_builder_perm" => {
+            let order: [usize; 3] = [[0, 1, 2], [0, 2, 1], [1, 0, 2], [1, 2, 0], [2, 0, 1], [2, 1, 0]][u(c, "perm") as usize];
+            let mut b = WTinyLFUCache::<u64, u64>::builder().set_probationary_cache_size(u(c, "a") as usize);
+            for step in order {
+                b = match step {
+                    0 => b.set_window_cache_size(9).set_window_cache_size(u(c, "w") as usize),
+                    1 => b.set_samples(9).set_samples(u(c, "s") as usize).set_protected_cache_size(u(c, "b") as usize),
+                    _ => b.set_false_positive_ratio(0.5).set_false_positive_ratio(f(s(c, "fp"))),
+                };
+            }
+            msg(b.finalize::<u64>())
+        }
         "w_with_sizes" => msg(WTinyLFUCache::<u64, u64>::with_sizes(u(c, "w") as usize, u(c, "b") as usize, u(c, "a") as usize, u(c, "s") as usize)),
         "w_builder" => msg(
             WTinyLFUCache::<u64, u64>::builder()
